@@ -119,7 +119,9 @@ QUICK = {
     'n3-plain': dict(PL, n=3, scenarios=[(0, -1), (5, 1)]),
     'n2-resources': dict(PL, n=2, resources=['r', 'q'], calendars=['sparse', 'fraction'], scenarios=[(5, 0)]),
     'n3-sparse-flat': dict(PL, n=3, calendars=['sparse', 'composed'], hierarchy=False, links=False, scenarios=[(1, -1)]),
-    'n2-min-start': dict(PL, n=2, min_start=True, min_start_offsets=[-1, 2], dates_on=1, scenarios=[(1, 0)]),
+    'n2-min-start': dict(PL, n=2, min_start=True, min_start_offsets=[-1, 1, 3], scenarios=[(1, 0)]),
+    'n3-two-resources': dict(PL, n=3, fixed_parent=[-1, -1, 1], resources=['r', 'q'], E=10, scenarios=[(0, -1)]),
+    'n3-two-resources-flat': dict(PL, n=3, hierarchy=False, resources=['r', 'q'], link_pairs=[(0, 1)], E=10, scenarios=[(0, -1)]),
     'n2-milestones': dict(PL, n=2, milestones=True, scenarios=[(0, -1)]),
     'n3-unbalanced-removal': dict(PL, n=3, balance=[False], removal=True, scenarios=[(0, -1)]),
 }
